@@ -94,6 +94,12 @@ class TransError(Exception):
     pass
 
 
+# DICOM header dict: key -> (projection, type, setter); every other key lives in the opaque h_rest token
+HDR_FIELDS = {'PixelSpacing': ('h_spacing', T(Q, Q), 'hdr_set_spacing'),
+              'RescaleSlope': ('h_slope', Q, 'hdr_set_slope'),
+              'RescaleIntercept': ('h_intercept', Q, 'hdr_set_intercept')}
+
+
 # types of transform-method parameters / parameter-dict entries / instance attributes, by name
 NAME_TYPES = {
     'img': 'arr', 'image': 'arr', 'mask': 'arr', 'bbox': 'box', 'keypoint': 'kp', 'dicom': 'hdr',
@@ -765,6 +771,11 @@ class FnTranslator:
             return Expr(t_, Z, [(t_, 'Raise KeyError')])
         v = self.expr(node.value, env)
         sl = node.slice
+        if v.ty == 'hdr':
+            if not (isinstance(sl, ast.Constant) and sl.value in HDR_FIELDS):
+                raise TransError('header key at line %d' % node.lineno)
+            fld, fty, _ = HDR_FIELDS[sl.value]
+            return Expr('(%s %s)' % (fld, v.code), fty, v.binds)
         if v.ty == ARR:
             bounds, rev, binds = self.arr_slices(sl, env, node.lineno)
             code = v.code
@@ -915,6 +926,21 @@ class FnTranslator:
             t = self.fresh('v')
             return Expr(t, ARR, a.binds + pw.binds + mode.binds + val.binds +
                         [(t, 'np_pad %s %s %s %s' % (a.code, pw.code, mode.code, val.code))])
+        if isinstance(f, ast.Attribute) and f.attr == 'astype' and len(args) == 1:
+            try:
+                b0 = self.expr(f.value, env)
+            except TransError:
+                b0 = None
+            if b0 is not None and b0.ty in (Q, Z):
+                dt = ast.unparse(args[0])
+                if dt in ('np.float64', 'float', 'np.float32'):
+                    return self.coerce(b0, Q)
+                if dt == 'np.int16' and b0.ty == Z:
+                    return Expr('(wrap_int16 %s)' % b0.code, Z, b0.binds)
+                raise TransError('astype(%s) of a scalar %s at line %d' % (dt, b0.ty, node.lineno))
+        if fname == 'np.rint' and len(args) == 1:
+            e = self.coerce(self.expr(args[0], env), Q)
+            return Expr('(py_round %s)' % e.code, Z, e.binds)     # integral-valued
         base = None
         if isinstance(f, ast.Attribute) and f.attr in ('copy', 'transpose'):
             try:
@@ -1208,6 +1234,30 @@ class FnTranslator:
 
         if isinstance(st, ast.Expr) and isinstance(st.value, ast.Constant):
             return cont(env)  # docstring
+        # fresh-dict idiom of the header helpers:  res = {}; for k, v in D.items(): res[k] = v
+        if isinstance(st, ast.Assign) and len(st.targets) == 1 and isinstance(st.targets[0], ast.Name) \
+                and isinstance(st.value, ast.Dict) and not st.value.keys and rest and isinstance(rest[0], ast.For):
+            f = rest[0]
+            res = st.targets[0].id
+            ok = (isinstance(f.target, ast.Tuple) and len(f.target.elts) == 2
+                  and all(isinstance(e, ast.Name) for e in f.target.elts)
+                  and isinstance(f.iter, ast.Call) and isinstance(f.iter.func, ast.Attribute)
+                  and f.iter.func.attr == 'items' and isinstance(f.iter.func.value, ast.Name)
+                  and not f.iter.args and not f.orelse and len(f.body) == 1
+                  and isinstance(f.body[0], ast.Assign) and len(f.body[0].targets) == 1
+                  and isinstance(f.body[0].targets[0], ast.Subscript)
+                  and isinstance(f.body[0].targets[0].value, ast.Name) and f.body[0].targets[0].value.id == res
+                  and isinstance(f.body[0].targets[0].slice, ast.Name)
+                  and f.body[0].targets[0].slice.id == f.target.elts[0].id
+                  and isinstance(f.body[0].value, ast.Name) and f.body[0].value.id == f.target.elts[1].id)
+            if ok and env.get(f.iter.func.value.id) == 'hdr':
+                src = f.iter.func.value.id
+                if not hasattr(self, 'owned'):
+                    self.owned = set()
+                self.owned.add(res)
+                env2 = dict(env)
+                env2[res] = 'hdr'
+                return "(let %s := %s in\n %s)" % (vname(res), vname(src), self.block(rest[1:], env2, k))
         if isinstance(st, ast.Pass):
             return cont(env)
         if isinstance(st, ast.AnnAssign) and st.value is None:
@@ -1248,6 +1298,18 @@ class FnTranslator:
                 env2 = dict(env)
                 env2[targets[0].id] = ('closure', st.value.args[0], st.value.keywords)
                 return cont(env2)
+            if isinstance(targets[0], ast.Subscript) and isinstance(targets[0].value, ast.Name) \
+                    and env.get(targets[0].value.id) == 'hdr':
+                nm = targets[0].value.id
+                sl = targets[0].slice
+                if not (isinstance(sl, ast.Constant) and sl.value in HDR_FIELDS):
+                    raise TransError('store under an unknown header key at line %d' % st.lineno)
+                if nm not in getattr(self, 'owned', set()):
+                    raise TransError('store into the caller-owned header dict %s (no fresh copy) at line %d' % (nm, st.lineno))
+                fld, fty, setter = HDR_FIELDS[sl.value]
+                val = self.coerce(self.expr(st.value, env), fty)
+                return self.with_binds(val.binds, "(let %s := %s %s %s in\n %s)" % (
+                    vname(nm), setter, vname(nm), val.code, cont(env)))
             if isinstance(targets[0], ast.Subscript):
                 base = self.expr(targets[0].value, env)
                 if base.ty != ARR or not isinstance(targets[0].value, ast.Name):
@@ -1766,6 +1828,16 @@ def class_method_specs(m, tree, cspec, errors):
     cds = class_defs(tree)
     name = cspec['name']
     mro = [name] + list(cspec.get('bases', []))
+    # base classes defined in the same file are followed automatically (depth first, like Python's
+    # MRO for the single-inheritance chains of this package)
+    k = 0
+    while k < len(mro):
+        cd = cds.get(mro[k])
+        if cd is not None:
+            for b in cd.bases:
+                if isinstance(b, ast.Name) and b.id in cds and b.id not in mro:
+                    mro.append(b.id)
+        k += 1
     missing = [c for c in mro if c not in cds]
     if missing:
         errors.append({'function': name, 'file': m['file'], 'error': 'class(es) %s not found' % missing})
